@@ -4,8 +4,12 @@ C12 — Quorum arithmetic: any failover quorum meets any acknowledging set.
 PROPERTY THEOREMS ONLY.  The definitions are *regenerated* from
 /repo/internal/mysql/switch_helper.go by /verif/gen on every run
 (MysyncModel/Generated/SwitchHelper.lean); nothing here is hand-modelled.
+The proofs do not unfold the generated definitions: they rewrite with their specification in normal form
+(MysyncProofs/Lemmas/QuorumSpec.lean, proved there by a script that does not depend on the shape of the
+generated code), so a behaviour-preserving rewrite of the Go code does not touch this file.
 -/
 import MysyncModel.Generated.SwitchHelper
+import MysyncProofs.Lemmas.QuorumSpec
 import Mathlib.Data.Finset.Card
 
 namespace C12
@@ -26,47 +30,45 @@ private theorem tdiv2 (n : Nat) : Int.tdiv (n : Int) 2 = (n : Int) / 2 :=
 /-- the demanded count never exceeds the number of replicas in the list -/
 theorem req_le_replicas (sh : SwitchHelper) (l : List String) (hw : 0 ≤ w sh) :
     req sh l ≤ replicas l := by
-  simp only [req, replicas, GetRequiredWaitSlaveCount, tdiv2, w] at *
+  simp only [req, replicas, QuorumSpec.req_spec, tdiv2, w] at *
   omega
 
 theorem req_nonneg (sh : SwitchHelper) (l : List String) (hw : 0 ≤ w sh) : 0 ≤ req sh l := by
-  simp only [req, GetRequiredWaitSlaveCount, tdiv2, w] at *
+  simp only [req, QuorumSpec.req_spec, tdiv2, w] at *
   omega
 
 /-- … and is zero only when the list has no replica or the configured count is zero -/
 theorem req_zero_iff (sh : SwitchHelper) (l : List String) (hw : 0 ≤ w sh) :
     req sh l = 0 ↔ (l.length ≤ 1 ∨ w sh = 0) := by
-  simp only [req, GetRequiredWaitSlaveCount, tdiv2, w] at *
+  simp only [req, QuorumSpec.req_spec, tdiv2, w] at *
   omega
 
 /-- the failover quorum is at least one -/
 theorem quorum_pos (sh : SwitchHelper) (l : List String) : 1 ≤ quorum sh l := by
-  simp only [quorum, GetFailoverQuorum]
+  simp only [quorum, QuorumSpec.quorum_spec]
   omega
 
 /-- quorum + demanded count exceeds the number of replicas in the list -/
 theorem quorum_add_req_gt (sh : SwitchHelper) (l : List String) (hw : 0 ≤ w sh) :
     replicas l < quorum sh l + req sh l := by
-  simp only [quorum, req, replicas, GetFailoverQuorum, GetRequiredWaitSlaveCount, tdiv2, w] at *
+  simp only [quorum, req, replicas, QuorumSpec.quorum_spec, QuorumSpec.req_spec, tdiv2, w] at *
   omega
 
 /-- the quorum never exceeds the list size (so a fully alive list can always fail over) -/
 theorem quorum_le_size (sh : SwitchHelper) (l : List String) (hw : 0 ≤ w sh) (hn : 1 ≤ l.length) :
     quorum sh l ≤ l.length := by
-  simp only [quorum, GetFailoverQuorum, GetRequiredWaitSlaveCount, tdiv2, w] at *
+  simp only [quorum, QuorumSpec.quorum_spec, QuorumSpec.req_spec, tdiv2, w] at *
   omega
 
 /-- semi-sync: the check fails exactly when fewer than `quorum` nodes are permissible -/
 theorem check_semisync_iff (sh : SwitchHelper) (l : List String) (p : Int) (hs : sh.SemiSync = true) :
     (CheckFailoverQuorum sh l p).isSome = true ↔ p < quorum sh l := by
-  simp only [CheckFailoverQuorum, hs, quorum]
-  split <;> simp_all
+  rw [QuorumSpec.check_isSome, if_pos hs]
 
 /-- without semi-sync a failover needs at least one alive active replica -/
 theorem check_async_iff (sh : SwitchHelper) (l : List String) (p : Int) (hs : sh.SemiSync = false) :
     (CheckFailoverQuorum sh l p).isSome = true ↔ p = 0 := by
-  simp only [CheckFailoverQuorum, hs]
-  split <;> simp_all
+  rw [QuorumSpec.check_isSome, if_neg (by simp [hs])]
 
 /-- Set-level statement.  `R` = replicas of the published list `l` (so `|R| = |l| − 1`), `m ∉ R` the
 old master, `A ⊆ R` any set that could have acknowledged a commit (`req ≤ |A|`, `1 ≤ req`), `F ⊆ R ∪ {m}`
